@@ -249,3 +249,77 @@ def run(ctx):
                      "succeeds only when asset.amount == must_pay(info, denom)" if hb is None else "a success path of the sent-funds assertion is not the equality case (over- or under-payment accepted)")
         ctx.inst("R05.4", "stored-margin", bad_s is None, dp.fn.where(), bad_s or "stored margin = position.margin + msg.amount")
         ctx.inst("R05.4", "collected-amount", bad_c is None and kinds == {"native", "cw20"}, dp.fn.where(), bad_c or "native: sent == msg.amount asserted; cw20: TransferFrom(info.sender -> engine, msg.amount)")
+
+    # ---------------------------------------------------------------- R05.5
+    # "after a WithdrawMargin the free collateral is non-negative" is only as good as the figure itself:
+    #   free = min(margin, margin + pnl) - notional_for_requirement * initial_margin_ratio / decimals
+    # with the INITIAL ratio, margin alone exactly when the pnl is positive, and the requirement on the open notional
+    # of a long / the current notional of a short
+    ctx.rule("R05.5", "free collateral = min(margin, margin + pnl) - requirement notional * config.initial_margin_ratio / decimals (margin alone iff pnl > 0)", 1)
+    try:
+        fc = arms.Arm(ix, ENG, "FreeCollateral", entry="query")
+    except KeyError as e:
+        ctx.lost("R05.5", str(e))
+        fc = None
+    if fc is not None:
+        ctx.analysed["functions"].add(fc.fn.pretty)
+        bad5 = None
+        n5 = 0
+        seen_mc = set()
+        cfgh = lambda name: hole("cfg." + name, lambda v, name=name: guards.is_field_of_item(ix, v, ENG, "margined_engine:config", name))
+
+        def pos_margin(n_):
+            return n_[0] == "leaf" and isinstance(n_[1], int) and tag(ix.inline(n_[1])) == "field" and payload(ix.inline(n_[1]))[0] == "margin"
+        for q in fc.ok_paths():
+            r = N(ix, sym.unwrap(q.ret))
+            m = match(("isub", anyhole("MC"), ("pos", ("div", ("mul", anyhole("X"), cfgh("initial_margin_ratio")), cfgh("decimals")))), r)
+            if m is None:
+                bad5 = bad5 or "free collateral is %s" % norm.show(r)[:260]
+                continue
+            n5 += 1
+            mc, x = m["MC"], m["X"]
+            # which notional the requirement is charged on
+            long_ = None
+            for (at, o, _b, _l) in q.conds:
+                ai = ix.inline(at)
+                if tag(ai) == "call" and str(payload(ai)[0]).endswith(("Integer::is_positive", "Integer::is_negative")) and kids(ai) and o in (True, False):
+                    a0 = ix.inline(kids(ai)[0])
+                    if tag(a0) == "field" and payload(a0)[0] == "size":
+                        long_ = o if str(payload(ai)[0]).endswith("is_positive") else (not o)
+            xf = payload(ix.inline(x[1]))[0] if x[0] == "leaf" and isinstance(x[1], int) and tag(ix.inline(x[1])) == "field" else None
+            if long_ is True and xf != "notional":
+                bad5 = bad5 or "a long's requirement is charged on .%s, not on its open notional" % xf
+            if long_ is False and xf != "position_notional":
+                bad5 = bad5 or "a short's requirement is charged on .%s, not on its current notional" % xf
+            if long_ is None:
+                bad5 = bad5 or "the requirement notional is not selected by the sign of the position size"
+            # minimum collateral
+            if mc[0] == "pos" and pos_margin(mc[1]):
+                kind, L, pnl = "margin", mc[1], None
+            elif mc[0] == "iadd" and any(t_[0] == "pos" and pos_margin(t_[1]) for t_ in mc[1:]):
+                kind = "margin+pnl"
+                L = [t_[1] for t_ in mc[1:] if t_[0] == "pos" and pos_margin(t_[1])][0]
+                pnl = [t_ for t_ in mc[1:] if not (t_[0] == "pos" and pos_margin(t_[1]))][0]
+            else:
+                bad5 = bad5 or "minimum collateral is %s" % norm.show(mc)[:200]
+                continue
+            seen_mc.add(kind)
+            # the decision: pnl positive <=> margin alone
+            decided = None
+            for (at, o, _b, _l) in q.conds:
+                ai = ix.inline(at)
+                if tag(ai) == "call" and str(payload(ai)[0]).endswith(("Integer::is_positive", "Integer::is_negative")) and kids(ai) and o in (True, False):
+                    an = N(ix, kids(ai)[0])
+                    pos_ = o if str(payload(ai)[0]).endswith("is_positive") else (not o)
+                    if an[0] == "isub" and an[2] == ("pos", L) and an[1][0] == "iadd" and ("pos", L) in an[1][1:]:
+                        decided = pos_
+                    elif pnl is not None and an == pnl:
+                        decided = pos_
+                    elif an[0] == "leaf" and isinstance(an[1], int) and tag(ix.inline(an[1])) == "field" and payload(ix.inline(an[1]))[0] == "unrealized_pnl":
+                        decided = pos_
+            if decided is None:
+                bad5 = bad5 or "no sign test of the pnl selects the minimum collateral"
+            elif decided != (kind == "margin"):
+                bad5 = bad5 or "with the pnl %s the minimum collateral is %s" % ("positive" if decided else "not positive", kind)
+        ctx.inst("R05.5", "free-collateral-formula:%s" % short_fn(fc.fn), bad5 is None and n5 > 0 and seen_mc == {"margin", "margin+pnl"}, fc.fn.where(),
+                 bad5 or "%d paths: min(margin, margin + pnl) - notional * initial_margin_ratio / decimals" % n5)
